@@ -54,9 +54,13 @@ theorem crypto_rand_sites : Extracted.cryptoRandSites = [
     ("x25519.go", "(*X25519Recipient).Wrap", "Read"),
     ("x25519.go", "GenerateX25519Identity", "Read")] := by decide
 
-/-- every use of any `rand` package is accounted for by the two lists above -/
+/-- every use of any `rand` package is accounted for by the two lists above: the `crypto/rand` rows of the primary
+    table `randUses` (file, function, package, member, sink), projected, ARE `cryptoRandSites`, and its other rows ARE
+    `otherRandUses` — a partition recomputed here from the primary table, not a count (an equation between lengths,
+    as this theorem used to be, cannot fail for lists the extractor emits side by side) -/
 theorem all_uses_accounted :
-    Extracted.randUses.length = Extracted.cryptoRandSites.length + Extracted.otherRandUses.length := by decide
+    (Extracted.randUses.filter (fun u => u.2.2.1 == "crypto/rand")).map (fun u => (u.1, u.2.1, u.2.2.2.1)) = Extracted.cryptoRandSites ∧
+    Extracted.randUses.filter (fun u => u.2.2.1 != "crypto/rand") = Extracted.otherRandUses := by decide
 
 
 /-! ## The code itself (DESIGN.md §5.3): the chunk nonce arithmetic of internal/stream,
